@@ -560,3 +560,13 @@ Goal Proofs.C09MultiLangWitness.wl_dom Go [] Proofs.C09MultiLangWitness.ws_rich 
   Proofs.C09MultiLangWitness.wl_go Proofs.C09MultiLangWitness.ws_rich Proofs.C14Witness.MY (lit "EVInner") (lit "EV") = Some (5, 12, true, false)%nat.
 Proof. exact Props.C09.C09_multi_Go_nonvacuous. Qed.
 Print Assumptions Props.C09.C09_multi_Go_nonvacuous.
+Goal forall (L : lang) (pfx : str) (ws : c9m_ws), c9m_lknown_ws L pfx ws = None ->
+  forall b f, In (b, f) ws ->
+    (forall tp form i, In tp (c09_tposs f) -> In (form, i) (c09_type_ids (c9t_type tp)) -> c9m_lknown L pfx ws b f tp i = None) /\
+    (forall e, In e (c9m_entities ws b) ->
+       match c9e_kind e with
+       | C9KInner => c09_inner_site_class L e = None
+       | _ => c9m_def_class L e = None /\ c09_parent_site_class L e = None
+       end).
+Proof. exact Props.C09.C09_multi_no_class. Qed.
+Print Assumptions Props.C09.C09_multi_no_class.
